@@ -385,7 +385,45 @@ POLICIES = [
     {'kind': 'walk', 'p': 0.002}, {'kind': 'walk', 'p': 0.02}, {'kind': 'walk', 'p': 0.2},
     {'kind': 'crit', 'p_crit': 0.3, 'p_base': 0.002}, {'kind': 'crit', 'p_crit': 0.08, 'p_base': 0.0005},
     {'kind': 'pct', 'k': 1}, {'kind': 'pct', 'k': 2}, {'kind': 'pct', 'k': 3},
+    {'kind': 'pctc', 'k': 1, 'est_crit': 60}, {'kind': 'pctc', 'k': 1, 'est_crit': 250},
+    {'kind': 'pctc', 'k': 2, 'est_crit': 250}, {'kind': 'pctc', 'k': 2, 'est_crit': 1000},
 ]
+TWIN_POLICIES = [p for p in POLICIES if p['kind'] == 'pctc'] * 2 + [
+    {'kind': 'crit', 'p_crit': 0.3, 'p_base': 0.002}, {'kind': 'walk', 'p': 0.02}]
+
+
+def twin_of(rng, prog, algebras, pools):
+    """The same program with operand key orders permuted and/or moved to another algebra of the same
+    dimension: two callers that generate *colliding* patterns at the same time (race-directed arm)."""
+    import copy
+    out = copy.deepcopy(prog)
+    swap = None
+    if len(algebras) > 1 and rng.random() < 0.5:
+        same = [j for j in range(1, len(algebras)) if dim_of(algebras[j]) == dim_of(algebras[0])
+                and not algebras[j].get('graded') and not algebras[0].get('graded')
+                and not algebras[j].get('name') and not algebras[0].get('name')]
+        if same:
+            swap = rng.choice(same)
+
+    def perm(r):
+        k = r.get('k')
+        if k in ('kv', 'fkv', 'map') and len(r.get('keys', [])) > 1 and rng.random() < 0.7:
+            idx = list(range(len(r['keys'])))
+            rng.shuffle(idx)
+            r['keys'] = [r['keys'][i] for i in idx]
+            r['vals'] = [r['vals'][i] for i in idx]
+        elif k in ('call0',):
+            perm(r['of'])
+        elif k == 'list':
+            for x in r['of']:
+                perm(x)
+    for op in out:
+        if swap is not None and op['alg'] == 0 and op['kind'] in ('bin', 'un', 'meth') and \
+                not any(a.get('k') in ('sh', 'other') for a in op.get('args', [])):
+            op['alg'] = swap
+        for a in op.get('args', []):
+            perm(a)
+    return out
 
 
 def gen_trace(rng, tier='quick', crit_names=(), arm=None):
@@ -466,6 +504,10 @@ def gen_trace(rng, tier='quick', crit_names=(), arm=None):
             prog.append(gen_op(rng, ai, pools[ai], ctx))
         callers.append(prog)
 
+    twins = False
+    if n_callers >= 2 and rng.random() < 0.3 and not any(a.get('graded') for a in algebras):
+        twins = True
+        callers[1] = twin_of(rng, callers[0], algebras, pools)
     faults = []
     fault_arm = rng.random() < 0.5 if arm is None else arm.get('faults', False)
     wrapper_faults = []
@@ -488,6 +530,7 @@ def gen_trace(rng, tier='quick', crit_names=(), arm=None):
                  wrapper_faults=wrapper_faults,
                  instr=rng.random() < 0.3,
                  instr_poly=rng.random() < 0.15)
-    policy = {'kind': 'seq'} if n_callers == 1 else dict(rng.choice(POLICIES))
+    policy = {'kind': 'seq'} if n_callers == 1 else dict(rng.choice(TWIN_POLICIES if twins else POLICIES))
+    world['twins'] = twins
     return dict(property='C09', world=world, callers=callers, faults=faults, policy=policy, schedule=None,
                 sched_seed=rng.getrandbits(48))
